@@ -7,6 +7,7 @@
   seedtest.py adopt  <dir> <name> <property> : copy into /verif/seeded/<name>/ with meta.json
 """
 import sys, os, subprocess, json, shutil, tempfile, time
+os.environ.setdefault("VERIF_EVIDENCE_DIR", "/var/tmp/verif-scratch-evidence"); os.makedirs(os.environ["VERIF_EVIDENCE_DIR"], exist_ok=True)   # never overwrite /verif/evidence from a run against a modified tree
 
 REPO = "/repo"; VERIF = os.path.dirname(os.path.dirname(os.path.abspath(__file__)))
 
